@@ -39,6 +39,9 @@ theorem look_allocs (h : Heap) (os : List Obj) (i : Oid) :
 theorem look_allocs_lt (h : Heap) (os : List Obj) {i : Oid} (hi : i < h.next) :
     (h.allocs os).look i = h.look i := by rw [look_allocs, if_pos hi]
 
+theorem look_allocs_ge (h : Heap) (os : List Obj) (k : Nat) : (h.allocs os).look (h.next + k) = os[k]? := by
+  rw [look_allocs, if_neg (Nat.not_lt.mpr (Nat.le_add_right _ _)), Nat.add_sub_cancel_left]
+
 theorem look_put (h : Heap) (i j : Oid) (o : Obj) :
     (h.put i o).look j = if i = j then (if i < h.next then some o else none) else h.look j := by
   show (h.objs.set i o)[j]? = if i = j then (if i < h.objs.length then some o else none) else h.objs[j]?
@@ -631,16 +634,330 @@ theorem good_reformSys {n : Nat} {h : Heap} (hi : Inv n h) (hn : n ≤ h.next) (
       | ok u => cases u; exact ⟨g1.trans g2, fun R hR => by simp at hR; rw [← hR, hsid]⟩
       | error e => exact ⟨g1.trans g2, fun R hR => by cases hR⟩
 
+/-! ### extensions and the test runner's derivation -/
+
+theorem getSys_put_nonsys {h : Heap} {j Y : Nat} {o : Obj} {x : SysObj} (ho : ∀ s, o ≠ .sys s)
+    (hg : (h.put j o).getSys Y = some x) : h.getSys Y = some x := by
+  have hl := look_of_getSys hg
+  rw [look_put] at hl
+  by_cases hji : j = Y
+  · rw [if_pos hji] at hl
+    by_cases hlt : j < h.next
+    · rw [if_pos hlt] at hl; cases hl; exact absurd rfl (ho x)
+    · rw [if_neg hlt] at hl; cases hl
+  · rw [if_neg hji] at hl; exact getSys_of_look hl
+
+theorem getSys_allocs_nonsys {h : Heap} {os : List Obj} {Y : Nat} {x : SysObj}
+    (hos : ∀ o ∈ os, ∀ s, o ≠ Obj.sys s) (hg : (h.allocs os).getSys Y = some x) : h.getSys Y = some x := by
+  have hl := look_of_getSys hg
+  rw [look_allocs] at hl
+  by_cases hlt : Y < h.next
+  · rw [if_pos hlt] at hl; exact getSys_of_look hl
+  · rw [if_neg hlt] at hl; exact absurd rfl (hos _ (List.mem_of_getElem? hl) x)
+
+theorem getSys_bindVar {h : Heap} {s0 : SysObj} {m : List (String × Oid)} {name : String} {w : VarObj}
+    {Y : Nat} {x : SysObj} (hg : (bindVar h s0 m name w).getSys Y = some x) : h.getSys Y = some x := by
+  have hb : bindVar h s0 m name w = (h.allocs [.var w]).put s0.vars (.vmap (dictSet name h.next m)) := rfl
+  rw [hb] at hg
+  exact getSys_allocs_nonsys (by intro o ho s; simp at ho; subst ho; simp)
+    (getSys_put_nonsys (by intro s; simp) hg)
+
+theorem getSys_loadVariable {h : Heap} {X : Oid} {cls : ClassDef} {u : Bool} {Y : Nat} {x : SysObj}
+    (hg : (loadVariable h X cls u).1.getSys Y = some x) : h.getSys Y = some x := by
+  rcases loadVariable_inv h X cls u with ⟨e, he⟩ | ⟨s, m, v, _, _, _, _, he⟩
+  · rw [he] at hg; exact hg
+  · rw [he] at hg; exact getSys_bindVar hg
+
+/-- the system objects after one modification of `X`: the same, except that a parameter modifier on
+    a reform re-points `X` to a tree allocated just now -/
+theorem applyMod_getSys {h : Heap} {X : Oid} {m : Mod} {Y : Nat} {x : SysObj}
+    (hg : (applyMod h X m).1.getSys Y = some x) : h.getSys Y = some x ∨ (Y = X ∧ h.next ≤ x.params) := by
+  cases m with
+  | add c => exact Or.inl (getSys_loadVariable hg)
+  | update c => exact Or.inl (getSys_loadVariable hg)
+  | replace c =>
+    left
+    change (replaceVariable h X c).1.getSys Y = some x at hg
+    rcases replaceVariable_inv h X c with ⟨e, he⟩ | ⟨s, m, _, _, _, he⟩ | ⟨s, m, vid, _, _, _, he⟩
+    · rw [he] at hg; exact hg
+    · rw [he] at hg; exact getSys_loadVariable hg
+    · rw [he] at hg; exact getSys_put_nonsys (by intro s; simp) (getSys_loadVariable hg)
+  | neutralize nm =>
+    left
+    change (neutralizeVar h X nm).1.getSys Y = some x at hg
+    rcases neutralizeVar_inv h X nm with ⟨e, he⟩ | ⟨s, m, vid, v, c, _, _, _, _, _, he⟩
+    · rw [he] at hg; exact hg
+    · rw [he] at hg; exact getSys_bindVar hg
+  | annualize nm =>
+    left
+    change (annualizeVar h X nm).1.getSys Y = some x at hg
+    rcases annualizeVar_inv h X nm with ⟨e, he⟩ | ⟨s, m, vid, v, c, _, _, _, _, _, he⟩
+    · rw [he] at hg; exact hg
+    · rw [he] at hg; exact getSys_bindVar hg
+  | params us =>
+    change (modifyParams h X us).1.getSys Y = some x at hg
+    rcases modifyParams_inv h X us with ⟨e, he⟩ | ⟨s, p, b, p', hs, _, _, _, he⟩ | ⟨s, p, p', r, _, _, _, _, he⟩
+    · rw [he] at hg; exact Or.inl hg
+    · rw [he] at hg
+      by_cases hY : X = Y
+      · right
+        subst hY
+        have hl := look_of_getSys hg
+        rw [look_put, if_pos rfl] at hl
+        by_cases hlt : X < (h.allocs [Obj.par p']).next
+        · rw [if_pos hlt] at hl
+          simp only [Option.some.injEq, Obj.sys.injEq] at hl
+          rw [← hl]
+          exact ⟨rfl, Nat.le_refl _⟩
+        · rw [if_neg hlt] at hl; cases hl
+      · left
+        have hl := look_of_getSys hg
+        rw [look_put_ne _ _ hY] at hl
+        exact getSys_allocs_nonsys (by intro o ho s; simp at ho; subst ho; simp) (getSys_of_look hl)
+    · rw [he] at hg; exact Or.inl (getSys_put_nonsys (by intro s; simp) hg)
+
+/-- `X` holds a parameter tree created at or after `n` (it may update it in place) -/
+def OwnsP (n : Nat) (h : Heap) (X : Oid) : Prop := ∀ s, h.getSys X = some s → n ≤ s.params
+
+theorem ownsP_applyMod {n : Nat} {h : Heap} {X : Oid} (hn : n ≤ h.next) (ho : OwnsP n h X) (m : Mod) :
+    OwnsP n (applyMod h X m).1 X := by
+  intro s' hs'
+  rcases applyMod_getSys hs' with h1 | ⟨_, h2⟩
+  · exact ho s' h1
+  · exact Nat.le_trans hn h2
+
+theorem ownsP_applyMods {n : Nat} {h : Heap} {X : Nat} (hi : Inv n h) (hn : n ≤ h.next) (hX : n ≤ X)
+    (ho : OwnsP n h X) (ms : List Mod) : OwnsP n (applyMods h X ms).1 X := by
+  induction ms generalizing h with
+  | nil => exact ho
+  | cons m r ih =>
+    have g1 := good_applyMod hi hn hX m
+    have o1 := ownsP_applyMod hn ho m
+    unfold applyMods
+    cases hr : applyMod h X m with
+    | mk h1 res =>
+      rw [hr] at g1 o1
+      cases res with
+      | ok u => cases u; exact ih g1.2.1 g1.2.2 o1
+      | error e => exact o1
+
+theorem ownsP_reformInit {n : Nat} {h : Heap} {src : Oid} {h1 : Heap} {R : Oid}
+    (hc : reformInit h src = .ok (h1, R)) (ho : OwnsP n h src) : OwnsP n h1 R := by
+  unfold reformInit at hc
+  cases hs : h.getSys src with
+  | none => rw [hs] at hc; cases hc
+  | some s =>
+    rw [hs] at hc
+    dsimp only at hc
+    cases he : entityCopies h h.next s.entities with
+    | none => rw [he] at hc; simp at hc
+    | some ents =>
+      cases hm : h.getMap s.vars with
+      | none => rw [he, hm] at hc; simp at hc
+      | some m =>
+        rw [he, hm] at hc
+        simp only [Except.ok.injEq, Prod.mk.injEq] at hc
+        obtain ⟨hh, hR⟩ := hc
+        subst hR
+        intro s' hs'
+        have hl := look_of_getSys hs'
+        rw [← hh] at hl
+        have h0 : (h.allocs (Obj.sys ⟨(List.range ents.length).map (fun i => h.next + 1 + i),
+            h.next + 1 + ents.length, s.params, some src⟩ :: ents ++ [Obj.vmap m])).look h.next
+            = some (Obj.sys ⟨(List.range ents.length).map (fun i => h.next + 1 + i),
+                h.next + 1 + ents.length, s.params, some src⟩) := by
+          have := look_allocs_ge h (Obj.sys ⟨(List.range ents.length).map (fun i => h.next + 1 + i),
+            h.next + 1 + ents.length, s.params, some src⟩ :: ents ++ [Obj.vmap m]) 0
+          simpa using this
+        rw [h0] at hl
+        simp only [Option.some.injEq, Obj.sys.injEq] at hl
+        rw [← hl]
+        exact ho s hs
+
+theorem ownsP_reformSys {n : Nat} {h : Heap} (hi : Inv n h) (hn : n ≤ h.next) {src : Oid} (ho : OwnsP n h src)
+    (mods : List Mod) : ∀ R, (reformSys h src mods).2 = .ok R → OwnsP n (reformSys h src mods).1 R := by
+  unfold reformSys
+  cases hr : reformInit h src with
+  | error e => intro R hR; cases hR
+  | ok r =>
+    obtain ⟨h1, sid⟩ := r
+    obtain ⟨g1, hsid⟩ := good_reformInit hi hn src hr
+    have o1 := ownsP_reformInit hr ho
+    have o2 := ownsP_applyMods g1.2.1 g1.2.2 (X := sid) (by rw [hsid]; exact hn) o1 mods
+    dsimp only
+    cases hm : applyMods h1 sid mods with
+    | mk h2 res =>
+      rw [hm] at o2
+      cases res with
+      | ok u => cases u; intro R hR; simp at hR; rw [← hR]; exact o2
+      | error e => intro R hR; cases hR
+
+/-- the reforms of a derivation, stacked on a system that owns its tree: only fresh objects are
+    written, and the last reform owns its tree too -/
+theorem good_applyReforms {n : Nat} {h : Heap} (hi : Inv n h) (hn : n ≤ h.next) {cur : Nat} (hcur : n ≤ cur)
+    (ho : OwnsP n h cur) (rs : List (List Mod)) :
+    Good n h (applyReforms h cur rs).1 ∧
+    ∀ R, (applyReforms h cur rs).2 = .ok R → n ≤ R ∧ OwnsP n (applyReforms h cur rs).1 R := by
+  induction rs generalizing h cur with
+  | nil => exact ⟨Good.refl hi hn, fun R hR => by simp [applyReforms] at hR; rw [← hR]; exact ⟨hcur, ho⟩⟩
+  | cons mods r ih =>
+    obtain ⟨g1, hR1⟩ := good_reformSys hi hn cur mods
+    have o1 := ownsP_reformSys hi hn ho mods
+    unfold applyReforms
+    cases hr : reformSys h cur mods with
+    | mk h1 res =>
+      rw [hr] at g1 hR1 o1
+      cases res with
+      | error e => exact ⟨g1, fun R hR => by cases hR⟩
+      | ok R1 =>
+        have hge : n ≤ R1 := by rw [hR1 R1 rfl]; exact hn
+        obtain ⟨g2, h2⟩ := ih g1.2.1 g1.2.2 hge (o1 R1 rfl)
+        exact ⟨g1.trans g2, h2⟩
+
+theorem good_addVariables {n : Nat} {h : Heap} (hi : Inv n h) (hn : n ≤ h.next) {X : Nat} (hX : n ≤ X)
+    (ho : OwnsP n h X) (cs : List ClassDef) :
+    Good n h (addVariables h X cs).1 ∧ OwnsP n (addVariables h X cs).1 X := by
+  induction cs generalizing h with
+  | nil => exact ⟨Good.refl hi hn, ho⟩
+  | cons c r ih =>
+    have g1 := good_loadVariable hi hn hX c false
+    have o1 : OwnsP n (loadVariable h X c false).1 X := fun s hs => ho s (getSys_loadVariable hs)
+    unfold addVariables
+    cases hr : loadVariable h X c false with
+    | mk h1 res =>
+      rw [hr] at g1 o1
+      cases res with
+      | ok u => cases u; obtain ⟨g2, o2⟩ := ih g1.2.1 g1.2.2 o1; exact ⟨g1.trans g2, o2⟩
+      | error e => exact ⟨g1, o1⟩
+
+/-- `load_extension` on a system that owns its tree writes only objects it owns -/
+theorem good_loadExtension {n : Nat} {h : Heap} (hi : Inv n h) (hn : n ≤ h.next) {X : Nat} (hX : n ≤ X)
+    (ho : OwnsP n h X) (e : Ext) :
+    Good n h (loadExtension h X e).1 ∧ OwnsP n (loadExtension h X e).1 X := by
+  obtain ⟨g1, o1⟩ := good_addVariables hi hn hX ho e.vars
+  unfold loadExtension
+  cases hr : addVariables h X e.vars with
+  | mk h1 res =>
+    rw [hr] at g1 o1
+    cases res with
+    | error er => exact ⟨g1, o1⟩
+    | ok u =>
+      cases u
+      dsimp only
+      cases hq : e.params with
+      | nil => exact ⟨g1, o1⟩
+      | cons q qs =>
+        dsimp only
+        cases hs : h1.getSys X with
+        | none => exact ⟨g1, o1⟩
+        | some s =>
+          dsimp only
+          cases hp : h1.getPar s.params with
+          | none => exact ⟨g1, o1⟩
+          | some p =>
+            dsimp only
+            cases hm : mergeParams p (q :: qs) with
+            | mk p' r =>
+              dsimp only
+              have g2 := good_put g1.2.1 g1.2.2 (i := s.params) (.par p') (o1 s hs) trivial
+              exact ⟨g1.trans g2, fun s' hs' => o1 s' (getSys_put_nonsys (by intro s; simp) hs')⟩
+
+theorem good_loadExtensions {n : Nat} {h : Heap} (hi : Inv n h) (hn : n ≤ h.next) {X : Nat} (hX : n ≤ X)
+    (ho : OwnsP n h X) (es : List Ext) : Good n h (loadExtensions h X es).1 := by
+  induction es generalizing h with
+  | nil => exact Good.refl hi hn
+  | cons e r ih =>
+    obtain ⟨g1, o1⟩ := good_loadExtension hi hn hX ho e
+    unfold loadExtensions
+    cases hr : loadExtension h X e with
+    | mk h1 res =>
+      rw [hr] at g1 o1
+      cases res with
+      | ok u => cases u; exact g1.trans (ih g1.2.1 g1.2.2 o1)
+      | error er => exact g1
+
+/-- a clone owns its parameter tree, whatever it is a clone of -/
+theorem ownsP_cloneSys {n : Nat} {h : Heap} (hn : n ≤ h.next) {src : Oid} {h' : Heap} {N : Oid}
+    (hc : cloneSys h src = .ok (h', N)) : OwnsP n h' N := by
+  unfold cloneSys at hc
+  cases hs : h.getSys src with
+  | none => rw [hs] at hc; cases hc
+  | some s =>
+    rw [hs] at hc
+    dsimp only at hc
+    cases he : entityCopies h h.next s.entities with
+    | none => rw [he] at hc; simp at hc
+    | some ents =>
+      cases hp : h.getPar s.params with
+      | none => rw [he, hp] at hc; simp at hc
+      | some p =>
+        cases hm : h.getMap s.vars with
+        | none => rw [he, hp, hm] at hc; simp at hc
+        | some m =>
+          rw [he, hp, hm] at hc
+          dsimp only at hc
+          generalize hh1 : h.allocs _ = h1 at hc
+          cases hcv : copyVars h1 m with
+          | none => rw [hcv] at hc; cases hc
+          | some r =>
+            obtain ⟨h2, m'⟩ := r
+            rw [hcv] at hc
+            simp only [Except.ok.injEq, Prod.mk.injEq] at hc
+            obtain ⟨hh', hN⟩ := hc
+            subst hN
+            intro s' hs'
+            have hl := look_of_getSys hs'
+            rw [← hh', look_put, if_pos rfl] at hl
+            split at hl
+            · simp only [Option.some.injEq, Obj.sys.injEq] at hl
+              rw [← hl]
+              show n ≤ h.next + 1 + ents.length
+              omega
+            · cases hl
+
+/-- **frame of the test runner's derivation**: a `clone()` of the baseline, reforms stacked on it,
+    extensions merged in place into the last one's tree — which is the clone's or a fresh one, never
+    the baseline's -/
+theorem good_testRunnerDerive {n : Nat} {h : Heap} (hi : Inv n h) (hn : n ≤ h.next) (src : Oid)
+    (rs : List (List Mod)) (es : List Ext) :
+    Good n h (testRunnerDerive h src rs es).1 ∧ ∀ R, (testRunnerDerive h src rs es).2 = .ok R → n ≤ R := by
+  unfold testRunnerDerive
+  cases hc : cloneSys h src with
+  | error e => exact ⟨Good.refl hi hn, fun R hR => by cases hR⟩
+  | ok r =>
+    obtain ⟨h1, N⟩ := r
+    obtain ⟨g1, hN⟩ := good_cloneSys hi hn src hc
+    have o1 : OwnsP n h1 N := ownsP_cloneSys hn hc
+    have hNge : n ≤ N := by rw [hN]; exact hn
+    obtain ⟨g2, h2⟩ := good_applyReforms g1.2.1 g1.2.2 hNge o1 rs
+    dsimp only
+    cases hr : applyReforms h1 N rs with
+    | mk h2' res =>
+      rw [hr] at g2 h2
+      cases res with
+      | error e => exact ⟨g1.trans g2, fun R hR => by cases hR⟩
+      | ok R =>
+        obtain ⟨hRge, oR⟩ := h2 R rfl
+        have g3 := good_loadExtensions g2.2.1 g2.2.2 hRge oR es
+        dsimp only
+        cases hl : loadExtensions h2' R es with
+        | mk h3 res3 =>
+          rw [hl] at g3
+          cases res3 with
+          | ok u => cases u; exact ⟨(g1.trans g2).trans g3, fun R' hR' => by simp at hR'; rw [← hR']; exact hRge⟩
+          | error e => exact ⟨(g1.trans g2).trans g3, fun R' hR' => by cases hR'⟩
+
 /-! ### histories -/
 
 /-- state invariant of a history that started with `k0` systems and a heap of `n` objects -/
 def SInv (n k0 : Nat) (st : State) : Prop :=
   Inv n st.heap ∧ n ≤ st.heap.next ∧ ∀ k sid, k0 ≤ k → st.systems[k]? = some sid → n ≤ sid
 
-theorem sinv_append {n k0 : Nat} {st : State} {h' : Heap} (hs : SInv n k0 st) (g : Good n st.heap h')
-    (sid : Oid) (hsid : n ≤ sid) : SInv n k0 ⟨h', st.systems ++ [sid]⟩ := by
+theorem sinv_append {n k0 : Nat} {st st' : State} (hs : SInv n k0 st) (g : Good n st.heap st'.heap)
+    (sid : Oid) (hsys : st'.systems = st.systems ++ [sid]) (hsid : n ≤ sid) : SInv n k0 st' := by
   refine ⟨g.2.1, g.2.2, ?_⟩
   intro k s hk hl
+  rw [hsys] at hl
   simp only [List.getElem?_append] at hl
   split at hl
   · exact hs.2.2 k s hk hl
@@ -664,7 +981,7 @@ theorem step_frame {n k0 : Nat} {st : State} (hs : SInv n k0 st) (op : Op) (hop 
       | ok r =>
         obtain ⟨h', N⟩ := r
         obtain ⟨g, hN⟩ := good_cloneSys hi hn sid hc
-        exact ⟨g.1, sinv_append ⟨hi, hn, hsys⟩ g N (by rw [hN]; exact hn),
+        exact ⟨g.1, sinv_append ⟨hi, hn, hsys⟩ g N rfl (by rw [hN]; exact hn),
           fun k hk => by simp [List.getElem?_append_left hk]⟩
   | reform src mods =>
     simp only [step]
@@ -678,7 +995,7 @@ theorem step_frame {n k0 : Nat} {st : State} (hs : SInv n k0 st) (op : Op) (hop 
         rw [hr] at g hR
         cases res with
         | ok R =>
-          exact ⟨g.1, sinv_append ⟨hi, hn, hsys⟩ g R (by rw [hR R rfl]; exact hn),
+          exact ⟨g.1, sinv_append ⟨hi, hn, hsys⟩ g R rfl (by rw [hR R rfl]; exact hn),
             fun k hk => by simp [List.getElem?_append_left hk]⟩
         | error e => exact ⟨g.1, ⟨g.2.1, g.2.2, hsys⟩, fun _ _ => rfl⟩
   | modify tgt m =>
@@ -695,6 +1012,25 @@ theorem step_frame {n k0 : Nat} {st : State} (hs : SInv n k0 st) (op : Op) (hop 
         cases res with
         | ok u => cases u; exact ⟨g.1, ⟨g.2.1, g.2.2, hsys⟩, fun _ _ => rfl⟩
         | error e => exact ⟨g.1, ⟨g.2.1, g.2.2, hsys⟩, fun _ _ => rfl⟩
+  | testRunner src reforms exts =>
+    simp only [step]
+    cases hsrc : st.systems[src]? with
+    | none => exact ⟨Framed.refl _ _, ⟨hi, hn, hsys⟩, fun _ _ => rfl⟩
+    | some sid =>
+      dsimp only
+      cases lookupMemo (sid, reforms.map (fun r => r.1), nameSet (exts.map (fun e => e.name))) st.memo with
+      | some _ => exact ⟨Framed.refl _ _, ⟨hi, hn, hsys⟩, fun _ _ => rfl⟩
+      | none =>
+        dsimp only
+        obtain ⟨g, hR⟩ := good_testRunnerDerive hi hn sid (reforms.map (fun r => r.2)) exts
+        cases hr : testRunnerDerive st.heap sid (reforms.map (fun r => r.2)) exts with
+        | mk h' res =>
+          rw [hr] at g hR
+          cases res with
+          | ok R =>
+            exact ⟨g.1, sinv_append ⟨hi, hn, hsys⟩ g R rfl (hR R rfl),
+              fun k hk => by simp [List.getElem?_append_left hk]⟩
+          | error e => exact ⟨g.1, ⟨g.2.1, g.2.2, hsys⟩, fun _ _ => rfl⟩
 
 theorem step_length (st : State) (op : Op) : st.systems.length ≤ (step st op).1.systems.length := by
   cases op with
@@ -725,6 +1061,18 @@ theorem step_length (st : State) (op : Op) : st.systems.length ≤ (step st op).
       | mk h' res => cases res with
         | ok u => cases u; exact Nat.le_refl _
         | error e => exact Nat.le_refl _
+  | testRunner src reforms exts =>
+    simp only [step]
+    cases st.systems[src]? with
+    | none => exact Nat.le_refl _
+    | some sid =>
+      dsimp only
+      cases lookupMemo (sid, reforms.map (fun r => r.1), nameSet (exts.map (fun e => e.name))) st.memo with
+      | some _ => exact Nat.le_refl _
+      | none =>
+        dsimp only
+        cases testRunnerDerive st.heap sid (reforms.map (fun r => r.2)) exts with
+        | mk h' res => cases res <;> simp
 
 /-- induction over the history -/
 theorem run_frame {n k0 : Nat} (ops : List Op) {st : State} (hs : SInv n k0 st)
@@ -843,6 +1191,20 @@ theorem sysObs_agree {h h' : Heap} (hA : Agree h h') (hC : Closed h) {b : Nat} (
     have e4 : s.entities.map (fun e => (h'.getEnt e).map (·.key)) = s.entities.map (fun e => (h.getEnt e).map (·.key)) :=
       List.map_congr_left fun e he => by rw [getEnt_congr (hA e (hents e he))]
     rw [e3, e4]
+
+/-- a well-formed system of `h` is still one in any heap that agrees with `h` on its objects -/
+theorem sysWF_agree {h h' : Heap} (hA : Agree h h') (hC : Closed h) {b : Nat} (hw : SysWF h b) : SysWF h' b := by
+  obtain ⟨s, m, p, hs, hm, hp, he⟩ := hw
+  have lS := look_of_getSys hs
+  have hb := lt_next_of_look h lS
+  have hv : s.vars < h.next := closed_look hC lS _ (by simp [Obj.ptrs])
+  have hpp : s.params < h.next := closed_look hC lS _ (by simp [Obj.ptrs])
+  refine ⟨s, m, p, by rw [getSys_congr (hA b hb)]; exact hs, by rw [getMap_congr (hA _ hv)]; exact hm,
+    by rw [getPar_congr (hA _ hpp)]; exact hp, fun e hmem => ?_⟩
+  obtain ⟨v, hv'⟩ := he e hmem
+  have hlt : e.2 < h.next := closed_look hC (look_of_getMap hm) e.2 (by
+    simp only [Obj.ptrs, List.mem_map]; exact ⟨e, hmem, rfl⟩)
+  exact ⟨v, by rw [getVar_congr (hA _ hlt)]; exact hv'⟩
 
 /-! ## One modification is local to its target and to the names it declares -/
 
@@ -1223,9 +1585,6 @@ theorem modSpec_applyMods {h : Heap} {X : Oid} (hw : SysWF h X) (ms : List Mod) 
       | error e => exact weaken (ModSpec.refl sp1.wf _ _)
 
 /-! ## What `Reform.__init__` and `TaxBenefitSystem.clone` build -/
-
-theorem look_allocs_ge (h : Heap) (os : List Obj) (k : Nat) : (h.allocs os).look (h.next + k) = os[k]? := by
-  rw [look_allocs, if_neg (Nat.not_lt.mpr (Nat.le_add_right _ _)), Nat.add_sub_cancel_left]
 
 theorem getElem?_cons_append_last {α} (a : α) (l : List α) (x : α) : (a :: l ++ [x])[1 + l.length]? = some x := by
   rw [Nat.add_comm]; simp
@@ -2266,6 +2625,99 @@ theorem consistent_cloneSys {h : Heap} (hc : Consistent h) {src : Oid} {h' : Hea
               simpa using this
             exact consistent_put_nonvar c3 lS (by intro v; simp) (by intro e; simp) (by intro v; simp)
 
+theorem consistent_addVariables {h : Heap} (hc : Consistent h) (X : Oid) (cs : List ClassDef) :
+    Consistent (addVariables h X cs).1 := by
+  induction cs generalizing h with
+  | nil => exact hc
+  | cons c r ih =>
+    have c1 := consistent_loadVariable hc X c false
+    unfold addVariables
+    cases hr : loadVariable h X c false with
+    | mk h1 res =>
+      rw [hr] at c1
+      cases res with
+      | ok u => cases u; exact ih c1
+      | error e => exact c1
+
+theorem consistent_loadExtension {h : Heap} (hc : Consistent h) (X : Oid) (e : Ext) :
+    Consistent (loadExtension h X e).1 := by
+  have c1 := consistent_addVariables hc X e.vars
+  unfold loadExtension
+  cases hr : addVariables h X e.vars with
+  | mk h1 res =>
+    rw [hr] at c1
+    cases res with
+    | error er => exact c1
+    | ok u =>
+      cases u
+      dsimp only
+      cases hq : e.params with
+      | nil => exact c1
+      | cons q qs =>
+        dsimp only
+        cases hs : h1.getSys X with
+        | none => exact c1
+        | some s =>
+          dsimp only
+          cases hp : h1.getPar s.params with
+          | none => exact c1
+          | some p =>
+            dsimp only
+            cases hm : mergeParams p (q :: qs) with
+            | mk p' r =>
+              exact consistent_put_nonvar c1 (look_of_getPar hp) (by intro v; simp) (by intro e; simp) (by intro v; simp)
+
+theorem consistent_loadExtensions {h : Heap} (hc : Consistent h) (X : Oid) (es : List Ext) :
+    Consistent (loadExtensions h X es).1 := by
+  induction es generalizing h with
+  | nil => exact hc
+  | cons e r ih =>
+    have c1 := consistent_loadExtension hc X e
+    unfold loadExtensions
+    cases hr : loadExtension h X e with
+    | mk h1 res =>
+      rw [hr] at c1
+      cases res with
+      | ok u => cases u; exact ih c1
+      | error er => exact c1
+
+theorem consistent_applyReforms {h : Heap} (hc : Consistent h) (cur : Oid) (rs : List (List Mod)) :
+    Consistent (applyReforms h cur rs).1 := by
+  induction rs generalizing h cur with
+  | nil => exact hc
+  | cons mods r ih =>
+    have c1 := consistent_reformSys hc cur mods
+    unfold applyReforms
+    cases hr : reformSys h cur mods with
+    | mk h1 res =>
+      rw [hr] at c1
+      cases res with
+      | ok R => exact ih c1 R
+      | error e => exact c1
+
+theorem consistent_testRunnerDerive {h : Heap} (hc : Consistent h) (src : Oid) (rs : List (List Mod))
+    (es : List Ext) : Consistent (testRunnerDerive h src rs es).1 := by
+  unfold testRunnerDerive
+  cases hcl : cloneSys h src with
+  | error e => exact hc
+  | ok r =>
+    obtain ⟨h1, N⟩ := r
+    have c1 := consistent_cloneSys hc hcl
+    have c2 := consistent_applyReforms c1 N rs
+    dsimp only
+    cases hr : applyReforms h1 N rs with
+    | mk h2 res =>
+      rw [hr] at c2
+      cases res with
+      | error e => exact c2
+      | ok R =>
+        have c3 := consistent_loadExtensions c2 R es
+        dsimp only
+        cases hl : loadExtensions h2 R es with
+        | mk h3 res3 => rw [hl] at c3; cases res3 with
+          | ok u => cases u; exact c3
+          | error e => exact c3
+
 theorem consistent_step_op {st : State} (hc : Consistent st.heap) (op : Op) : Consistent (step st op).1.heap := by
   cases op with
   | clone src =>
@@ -2299,6 +2751,19 @@ theorem consistent_step_op {st : State} (hc : Consistent st.heap) (op : Op) : Co
         cases res with
         | ok u => cases u; exact c
         | error e => exact c
+  | testRunner src reforms exts =>
+    simp only [step]
+    cases st.systems[src]? with
+    | none => exact hc
+    | some sid =>
+      dsimp only
+      cases lookupMemo (sid, reforms.map (fun r => r.1), nameSet (exts.map (fun e => e.name))) st.memo with
+      | some _ => exact hc
+      | none =>
+        dsimp only
+        have c := consistent_testRunnerDerive hc sid (reforms.map (fun r => r.2)) exts
+        cases hr : testRunnerDerive st.heap sid (reforms.map (fun r => r.2)) exts with
+        | mk h' res => rw [hr] at c; cases res <;> exact c
 
 theorem consistent_run {st : State} (hc : Consistent st.heap) (ops : List Op) : Consistent (run st ops).heap := by
   induction ops generalizing st with
